@@ -1927,7 +1927,7 @@ func (p *Parser) parseConditionVarOperator(expression *ast.OperatorExpression) e
 			} else if p.curToken.Type == token.RPAREN {
 				if numOpenParens == 0 {
 					p.nextToken()
-					if len(parts) > 1 {
+					if len(parts) > 1 || (len(parts) == 1 && strings.Contains(parts[0], " ")) {
 						parts = append(parts, ")")
 						parts = append([]string{"("}, parts...)
 					}
